@@ -1,6 +1,6 @@
 (* C11 — output depends only on source, options and interpreter version. *)
 From Coq Require Import String.
-From PM Require Import Model.Base Model.Renamer Proofs.RenamerProofs Model.PipelineBase Gen.Pipeline.
+From PM Require Import Model.Base Model.Renamer Proofs.RenamerProofs Model.PipelineBase Gen.Pipeline Gen.StateSites.
 Open Scope bool_scope.
 
 (* hash-seed independence of the name assignment: the reservation scopes are Python sets; enumerating them in any
@@ -35,3 +35,17 @@ Theorem C11_args_unchanged : forall arg,
   caller_list_mutated "preserve_globals" arg (match arg with ACallerList => true | _ => false end) minify_body = false.
 Proof. intros []; vm_compute; split; reflexivity. Qed.
 Print Assumptions C11_args_unchanged.
+
+(* nothing in the package keeps state from one call to the next.  Gen/StateSites.v is regenerated on every run from every
+   .py of the package (translator/statesites.py): `global` statements, memoising decorators, module-level or class-level
+   containers / instances that some function mutates, mutable defaults that are mutated, stores into option objects (they
+   belong to the caller), iteration directly over a set (hash-seed dependent order), changes of interpreter-wide state.
+   The list must be exactly the reviewed one:
+     compare_ast loops over set(l_ast._fields + r_ast._fields): every field is compared whatever the order and the loop
+     produces nothing but "raise or not" (which mismatch is reported first is the only thing the order decides; minify()
+     turns any of them into the same UnstableMinification), so the output bytes do not depend on it. *)
+Definition reviewed_state_sites : list (string * string * string * string) :=
+  [("ast_compare.py", "compare_ast", "set-order", "set(l_ast._fields + r_ast._fields)")].
+Theorem C11_no_state_outlives_a_call : state_sites = reviewed_state_sites.
+Proof. reflexivity. Qed.
+Print Assumptions C11_no_state_outlives_a_call.
